@@ -1994,6 +1994,11 @@ if __name__ == "__main__":
             "(structured(), merge(), YAML save/load, subclass check of structured fields): modelled, validated by "
             "the correspondence; schema defaults and the subclass relation are read from the working tree each run",
             "float values travel as the exact decimal of their repr (lossless in both directions)",
+            "the builders' parameter defaults are NOT read from the implementation: DOC_DEFAULTS is pinned from the "
+            "docstrings of train.py (6 parameters without a documented default — test_file_path, intensity_aug, "
+            "geometry_aug, backbone_config, head_configs, lr_scheduler — are pinned from the signature as of HEAD); "
+            "defaults_audit compares inspect.signature with the pinned table and the no-argument builder results "
+            "with the schema defaults every run",
         ],
         rule="get_aug_config on every ordered list of <= 3 (thorough <= 5) geometric names, every ordered list of "
              "intensity names, each name singly, dict forms, invalid names + random mixes; every backbone preset x head "
@@ -2003,6 +2008,9 @@ if __name__ == "__main__":
              "verify_training_cfg on complete configurations from the real builders and variants with dropped/unknown/"
              "extra keys; OmegaConf.merge on random trees. distinct = distinct (op, arguments) record",
         assumptions=[
+            "a builder parameter the caller does not pass takes the builder's DOCUMENTED default (DOC_DEFAULTS), which "
+            "differs from the schema default at batch_size, enable_progress_bar, max_epochs, seed, backbone_config and the "
+            "always-instantiated early_stopping / lr_scheduler sub-configs (DOCUMENTED_BUILDER_DEFAULTS; argued in notes)",
             "argument values are of the documented Python type (an int where a float is documented, a str where a "
             "bool is documented etc. is refused or coerced by OmegaConf, outside the model)",
             "verify_training_cfg: top-level sections, when present, are dicts",
